@@ -495,8 +495,8 @@ size_t ZSTD_seekable_decompress(ZSTD_seekable* zs, void* dst, size_t len, unsign
          * (eos - offset below would wrap around) */
         return 0;
     }
-    if (offset + len > eos) {
-        len = eos - offset;
+    if (len > eos - offset) {   /* written this way : offset + len can wrap around */
+        len = (size_t)(eos - offset);
     }
 
     U32 targetFrame = ZSTD_seekable_offsetToFrameIndex(zs, offset);
